@@ -95,7 +95,10 @@ func (d *vtC13Dec) profile() (*configv1alpha1.ClusterColocationProfile, *schedul
 // result; Create on the result.  Each admission = the two mutators of the property in the
 // order handleCreate/handleUpdate call them.
 func vtC13mExec(in []int64) []int64 {
-	d := &vtC13Dec{in: in}
+	if len(in) == 0 || in[0] != 102 { // not an input of this stream
+		return []int64{-1}
+	}
+	d := &vtC13Dec{in: in[1:]}
 	nsPresent := d.next() != 0
 	nsLabels := d.labels()
 	rnd := int(d.next())
@@ -286,7 +289,7 @@ func vtC13GenProfile(r *rand.Rand, name int, tier string) []int64 {
 func vtC13mGen(r *rand.Rand, i int) (string, []int64) {
 	style := []string{"batch", "batch", "mid", "prod", "default-be", "random", "no-profile"}[r.Intn(7)]
 	// env
-	in := []int64{}
+	in := []int64{102}
 	if r.Intn(6) == 0 {
 		in = append(in, 0, 0)
 	} else {
